@@ -1,0 +1,58 @@
+//! Verification hooks, compiled only with the `verif-hooks` feature (never on chain).
+//!
+//! On chain an EVM program is bounded by FVM gas and Wasm memory limits. A native harness has
+//! neither, so it sets a per-thread instruction budget ("fuel") and a memory cap here. When either
+//! is exhausted the running contract aborts with `SYS_OUT_OF_GAS`, like running out of gas.
+
+use std::cell::Cell;
+
+thread_local! {
+    static FUEL: Cell<u64> = const { Cell::new(u64::MAX) };
+    static MEMORY_CAP: Cell<usize> = const { Cell::new(usize::MAX) };
+    static EXHAUSTED: Cell<bool> = const { Cell::new(false) };
+    static STEPS: Cell<u64> = const { Cell::new(0) };
+}
+
+/// Set the instruction budget and memory cap for this thread and clear the exhausted flag.
+pub fn arm(fuel: u64, memory_cap: usize) {
+    FUEL.with(|f| f.set(fuel));
+    MEMORY_CAP.with(|m| m.set(memory_cap));
+    EXHAUSTED.with(|e| e.set(false));
+    STEPS.with(|s| s.set(0));
+}
+
+/// True if fuel or memory ran out since the last `arm`.
+pub fn exhausted() -> bool {
+    EXHAUSTED.with(|e| e.get())
+}
+
+/// Instructions executed since the last `arm`.
+pub fn steps() -> u64 {
+    STEPS.with(|s| s.get())
+}
+
+/// Consume one unit of fuel; false when none is left.
+#[inline]
+pub fn consume() -> bool {
+    STEPS.with(|s| s.set(s.get().wrapping_add(1)));
+    FUEL.with(|f| {
+        let v = f.get();
+        if v == 0 {
+            EXHAUSTED.with(|e| e.set(true));
+            false
+        } else {
+            f.set(v - 1);
+            true
+        }
+    })
+}
+
+/// False if growing memory to `new_size` would exceed the cap.
+#[inline]
+pub fn memory_ok(new_size: usize) -> bool {
+    let ok = MEMORY_CAP.with(|m| new_size <= m.get());
+    if !ok {
+        EXHAUSTED.with(|e| e.set(true));
+    }
+    ok
+}
